@@ -68,6 +68,12 @@ def plant(parts, rng, tg):
         a, b = rng.sample(['Cac', 'Cex', 'Bdir', 'Bind', 'P', 'O'], 2)
         out.append(("mixed-types-in-nested-combination", "INVALID_TYPE_COMBINATIONS_IN_NESTED_STATEMENT_COMBINATIONS",
                     TX.r_stmt(replace_at(parts, path, st + [('fill', a + "{" + mk(a) + " [" + rng.choice(TX.OPS) + "] " + mk(b) + "}")]))))
+        # ... also a component with its own property type (one symbol is the beginning of the other), in both orders,
+        # and any two of the symbols that nest
+        for a, b in (rng.choice([('Bdir', 'Bdir,p'), ('Bdir,p', 'Bdir'), ('Bind', 'Bind,p'), ('Bind,p', 'Bind'), ('P', 'P,p'), ('P,p', 'P')]),
+                     tuple(rng.sample(['A,p', 'Bdir', 'Bdir,p', 'Bind', 'Bind,p', 'Cac', 'Cex', 'E,p', 'P', 'P,p', 'O'], 2))):
+            out.append(("mixed-types-in-nested-combination", "INVALID_TYPE_COMBINATIONS_IN_NESTED_STATEMENT_COMBINATIONS",
+                        TX.r_stmt(replace_at(parts, path, st + [('fill', a + "{" + mk(a) + " [" + rng.choice(TX.OPS) + "] " + mk(b) + "}")]))))
         # sibling nested statements of one type joined by two different operators (no braces): no precedence
         if not path and not any(p[0] in ('nested', 'ncombo', 'pairs') for p in st):
             used = {p[1] for p in st if p[0] == 'comp'}
